@@ -34,6 +34,81 @@ def make_parser(text=None, files=None, user_models=(), include_cc=True, load_cal
     return p, [str(x.message) for x in w]
 
 
+_PARTS_DIR: list = []
+
+
+def parse_as_part_files(ctx, text, user_models=(), prefer=("Define", "ModelAlias", "Alias", "ChargeConj", "CDecay", "CopyDecay"), include_cc=True):
+    """The same text handed to the file constructor as 1..3 files given in order -- as `str` or as `pathlib.Path` objects --, cut between top-level
+    statements (preferably right in front of a declaration), every part but the last ending without a line end or in an unterminated comment line.
+    -> (parser, warnings, witness details).  File names are not in alphabetical order."""
+    import os  # noqa: PLC0415
+    import pathlib  # noqa: PLC0415
+
+    from . import core, layout  # noqa: PLC0415
+
+    rng = ctx.rng
+    if not _PARTS_DIR:
+        d = os.path.join(os.environ.get("VMON_RUN_DIR") or core.WORK, f"parts-{os.getpid()}")
+        os.makedirs(d, exist_ok=True)
+        _PARTS_DIR.append(d)
+    its = layout.segments(text, L.published_models(), user_models)
+    bounds = layout.top_level_boundaries(its)
+    k = min(rng.choice([1, 2, 2, 3]), len(bounds) + 1)
+    cuts = []
+    if k > 1:
+        liked = [b for b in bounds if b + 1 < len(its) and its[b + 1][0] == "T" and its[b + 1][1] in prefer]
+        while len(cuts) < k - 1:
+            pool = [b for b in (liked if (liked and rng.random() < 0.6) else bounds) if b not in cuts]
+            if not pool:
+                break
+            cuts.append(rng.choice(pool))
+        cuts.sort()
+    parts, prev = [], 0
+    for c in [*cuts, None]:
+        parts.append(layout.render(its[prev:c + 1] if c is not None else its[prev:]))
+        prev = (c + 1) if c is not None else None
+    for i in range(len(parts) - 1):
+        parts[i] = parts[i].rstrip("\r\n") + rng.choice(["", "\n# end of this part", "\n#", "  # closing remark"])
+    names_ = rng.sample(["zz_generic.dec", "user.dec", "part10.dec", "part2.dec", "Alpha.DEC", "b_overrides.dec"], len(parts))
+    paths = []
+    for nm, part in zip(names_, parts):
+        path = os.path.join(_PARTS_DIR[0], nm)
+        with open(path, "w", encoding="utf-8", newline="") as fh:
+            fh.write(part)
+        paths.append(pathlib.Path(path) if rng.random() < 0.5 else path)
+    ctx.hit("file-constructor:%d-part-files" % len(parts))
+    if any(isinstance(x, pathlib.Path) for x in paths):
+        ctx.hit("file-constructor:pathlib-path-arguments")
+    p, w = make_parser(None, paths, user_models, include_cc)
+    return p, w, {"part_files": parts, "given_as": [type(x).__name__ for x in paths]}
+
+
+def parse_under_error_filter(text, user_models=(), include_cc=True):
+    """The same text parsed by a fresh object while the user's warning filter turns warnings into errors (`-W error`, pytest's filterwarnings = error).
+    -> parser, or None when the library (legitimately) warned and the warning surfaced as the exception the user asked for: then nothing is judged.
+    What must not happen is a *silently different* result."""
+    from decaylanguage import DecFileParser  # noqa: PLC0415
+
+    p = DecFileParser.from_string(text)
+    if user_models:
+        p.load_additional_decay_models(*user_models)
+    with warnings.catch_warnings():
+        warnings.simplefilter("error")
+        try:
+            p.parse(include_cc) if include_cc is not True else p.parse()
+        except Warning:
+            return None
+        except Exception as e:  # noqa: BLE001
+            # lark wraps exceptions raised inside its visitors / transformers
+            c = e
+            while c is not None:
+                if isinstance(c, Warning) or isinstance(getattr(c, "orig_exc", None), Warning):
+                    return None
+                c = c.__cause__ or c.__context__
+            raise
+    return p
+
+
 def params_canon(mp):
     return [] if (mp == "" or mp is None) else list(mp)
 
@@ -236,7 +311,52 @@ def compare_tables(p, exp, check_derived=True):
                 break
     if not out:
         out.extend(pdg_name_route(p, [m for m in allexp if m in obs]))
+    if not out and check_derived:
+        out.extend(chain_route(p, allexp))
     return out
+
+
+def chain_route(p, allexp, limit=4, max_size=400):
+    """The same tables seen through the other documented query: build_decay_chains(M) nests, below every daughter that has a table -- written, copied
+    or conjugated alike --, that daughter's table.  Judged for a few mothers whose (acyclic) unfolding is small."""
+    from . import chains as CH  # noqa: PLC0415
+    from . import contracts as CT  # noqa: PLC0415
+
+    out = []
+    T = {m: [{"bf": L.num(ln["bf"]) if isinstance(ln["bf"], str) else ln["bf"], "fs": list(ln["fs"]), "model": ln["model"], "model_params": ln["params"]} for ln in lines]
+         for m, lines in allexp.items()}
+    memo = {}
+    # mothers with a table-carrying daughter first: those are the ones for which the route says more than the flat queries
+    cands = sorted(T, key=lambda m: -sum(1 for ln in T[m] for x in ln["fs"] if x in T))
+    done = 0
+    for m in cands:
+        if done >= limit:
+            break
+        if not any(x in T for ln in T[m] for x in ln["fs"]) or not CT._reach_acyclic(T, m):
+            continue
+        size, npaths = CH.ref_sizes(T, m, memo)
+        if size > max_size:
+            continue
+        done += 1
+        CHAIN_ROUTE_COUNT[0] += 1
+        try:
+            with warnings.catch_warnings():
+                warnings.simplefilter("ignore")
+                got = p.build_decay_chains(m)
+        except Exception as e:  # noqa: BLE001
+            out.append(("tables:through-the-chain-query:raised", f"build_decay_chains({m!r}) raised {type(e).__name__}: {e}"))
+            continue
+        exp = CH.ref_unfold(T, m, set())
+        try:
+            same = L.typed(CT._norm_chain(got)) == L.typed(CT._norm_chain(exp))
+        except Exception:  # noqa: BLE001
+            same = False
+        if not same:
+            out.append(("tables:through-the-chain-query:differs", f"build_decay_chains({m!r}) = {str(got)[:600]} expected the nesting of the tables {str(exp)[:600]}"))
+    return out
+
+
+CHAIN_ROUTE_COUNT = [0]
 
 
 def pdg_name_route(p, mothers, limit=6):
